@@ -21,7 +21,8 @@ EXPLANATION = (
     "group+charge, or both electrons. R3 electrons hash to one constant so that all spellings share one ODE variable. R4 (shared with "
     "C09.R6) distinct species get distinct IDX_ identifiers: Species.alias is <phase><basename><injective charge run> and is never "
     "post-processed by deleting characters. R5 (shared with C01.R9) nothing but the pasted equations writes ydot and the working copy of "
-    "the abundances is the abundance vector. R6 the composition table accumulates: every write to element_count adds or creates a new entry.")
+    "the abundances is the abundance vector. R6 the composition table accumulates: every write to element_count adds or creates a new entry, and every occurrence of an element in the "
+    "scanned formula reaches that write (no dict-by-plain-assignment / set keyed by the element between the matches and the count).")
 ASSUMPTIONS = [
     "whether an input network is balanced is the user's premise",
     "the composition assigned to a given name is C08's subject (not decidable statically)",
@@ -106,6 +107,66 @@ def _r6(ctx):
                     f"element_count.{f.value[2]}(..) on a plain dict replaces the entry of an element met again instead of adding to it (dict.update is not Counter.update)",
                     expected="element_count[e] += n", found=show(f.value)[:80])
     ctx.floor("R6", "writes to element_count", n, 2)
+    _r6_occurrences(ctx, pkg, mname)
+
+
+def _r6_occurrences(ctx, pkg, count_name):
+    """Every OCCURRENCE of an element in the formula reaches the accumulating count method: between the regex matches and the call
+    there is no container that identifies equal element names (a dict keyed by the element filled by plain assignment, a set) --
+    CH3OH has H at two places, both count."""
+    from ..valueflow import Flow, show, simp, walk
+    from ..pymodel import species_parse_method
+    pname, pfn = species_parse_method(pkg)
+    ctx.saw(SPECIES, f"Species.{pname}")
+    fl = Flow(pfn, SPECIES)
+    calls = [f for f in fl.facts if f.kind == "call" and f.target == count_name and f.value and f.value[0] == "meth" and f.value[3]]
+    ctx.floor("R6", "calls of the count method while scanning the formula", len(calls), 1, (SPECIES, pfn.lineno))
+
+    def container(x):
+        """local container iterated to produce x: name or None"""
+        while x[0] == "meth" and x[2] in ("items", "keys") and not x[3]:
+            x = x[1]
+        if x[0] == "call" and x[1] in (("global", "sorted"), ("global", "list"), ("global", "tuple")) and x[2]:
+            return container(x[2][0])
+        return x[1] if x[0] == "acc" else None
+
+    for f in calls:
+        arg = simp(f.value[3][0])
+        key = f"Species.{pname}:{count_name}(..):occurrences"
+        verdict = None
+        for t in walk(arg):
+            if not (isinstance(t, tuple) and t and t[0] in ("key", "elem") and len(t) == 3):
+                continue
+            src = t[1]
+            if src[0] == "call" and src[1] in (("global", "set"), ("global", "frozenset")):
+                verdict = f"the element names are iterated from a set ({show(src)[:60]})"
+                break
+            if src[0] == "meth" and src[2] == "fromkeys":
+                verdict = f"the element names are iterated from dict.fromkeys ({show(src)[:60]})"
+                break
+            name = container(src)
+            if name is None:
+                continue
+            fill = [g for g in fl.facts if g.target == name]
+            inits = [simp(g.value) for g in fill if g.kind == "init"]
+            is_map = any(v == ("dict", ()) or (v[0] == "call" and v[1] in (("global", "dict"), ("global", "OrderedDict")) and not v[2]) for v in inits)
+            is_set = any(v == ("set", ()) or (v[0] == "call" and v[1] == ("global", "set") and not v[2]) for v in inits)
+            if is_set and t[0] in ("key", "elem"):
+                verdict = f"the element names are collected in the set `{name}` before they are counted"
+                break
+            if is_map:
+                plain = [g for g in fill if g.kind == "store" and not _reads_same_entry(simp(g.value), ("acc", name), simp(g.index) if g.index else None)
+                         and not _reads_same_entry(simp(g.value), ("global", name), simp(g.index) if g.index else None)]
+                if plain:
+                    verdict = (f"the matches are first collected in the dict `{name}` by plain assignment (line {plain[0].line}) and counted once per key")
+                    break
+        if verdict:
+            ctx.bad("R6", key, (SPECIES, f.line),
+                    verdict + ": an element written at two places of a formula (CH3OH, HCOOH) keeps only one of its counts, GetElementAbund and the "
+                    "renormalisation undercount those species",
+                    expected="one call per regex match (occurrence), or a container that adds the counts", found=show(simp(f.value))[:120])
+        else:
+            ctx.ok("R6", key, (SPECIES, f.line), "called once per match of the formula scan (no de-duplicating container in between)")
 
 
 def _scan(tree, items, env, guards=()):
@@ -355,6 +416,7 @@ MUTANTS = [
     {"name": "electron-hash-name", "file": SPECIES, "old": '            hash("Electron")\n            if self.is_electron', "new": '            hash(self.name)\n            if self.is_electron', "rules": ["R3"]},
 ]
 MUTANTS += [
+    {"name": "matches-collected-in-dict", "file": SPECIES, "old": '        for s, e, n in zip(starts, ends, matchnames):\n            # if there is replacement, save the element name with the new value\n            n = self._replacement.get(n, n)\n            if e != s:\n                substring = parsename[e:s]\n                if substring.isdigit():\n                    self._add_element_count(n, int(parsename[e:s]))\n                else:\n                    raise RuntimeError(\n                        f\'Unrecongnized name: "{substring}" in "{self.name}"\'\n                    )\n            else:\n                if n in symbols:\n                    self._add_element_count(n, 0)\n                elif n:\n                    self._add_element_count(n, 1)\n', "new": '        # Go through the name once: check everything between two matches is a\n        # number before anything is saved in the instance, and build the name\n        # with the replaced element names at the same time\n        newname = ""\n        components = {}\n        for s, e, n in zip(starts, ends, matchnames):\n            # if there is replacement, save the element name with the new value\n            n = self._replacement.get(n, n)\n            substring = parsename[e:s]\n            if substring and not substring.isdigit():\n                raise RuntimeError(\n                    f\'Unrecongnized name: "{substring}" in "{self.name}"\'\n                )\n            newname = f"{newname}{n}{substring}"\n            if n:\n                components[n] = int(substring) if substring else int(n not in symbols)\n\n        for n, count in components.items():\n            self._add_element_count(n, count)\n', "rules": ["R6"]},
     {"name": "eq-guard-clauses-ice-without-charge", "file": SPECIES, "old": '        if isinstance(o, Species):\n            return (\n                (self.is_electron and o.is_electron)\n                or (\n                    self.is_grain\n                    and o.is_grain\n                    and self.grain_group == o.grain_group\n                    and self.charge == o.charge\n                )\n                or (\n                    self.is_surface\n                    and o.is_surface\n                    and self.surface_group == o.surface_group\n                    and self.charge == o.charge\n                    and self.basename == o.basename\n                )\n                or self.name == o.name\n            )\n            # return (self.is_electron and o.is_electron) or self.name == o.name\n        return NotImplemented\n', "new": '        if not isinstance(o, Species):\n            return NotImplemented\n        if self.is_electron and o.is_electron:\n            return True\n        if self.is_grain and o.is_grain:\n            if self.grain_group == o.grain_group and self.charge == o.charge:\n                return True\n        if self.is_surface and o.is_surface:\n            same_group = self.surface_group == o.surface_group\n            if same_group and self.basename == o.basename:\n                return True\n        return self.name == o.name\n', "rules": ["R2"]},
     {"name": "hash-guard-clause-electron-by-name", "file": SPECIES, "old": '        return (\n            hash("Electron")\n            if self.is_electron\n            else hash(\n                f"{self.basename}"\n                f"{self.charge}"\n                f"{self.is_grain}"\n                f"{self.grain_group}"\n                f"{self.is_surface}"\n                f"{self.surface_group}"\n            )\n        )\n\n', "new": '        if self.is_electron:\n            return hash(self.name)\n        identity = (self.basename, self.charge, self.is_grain, self.grain_group, self.is_surface, self.surface_group)\n        return hash("".join(str(part) for part in identity))\n\n', "rules": ["R3"]},
     {"name": "element-count-get-of-other-key", "file": SPECIES, "old": "        if element in self.element_count.keys():\n            self.element_count[element] += count\n        else:\n            self.element_count[element] = count\n", "new": "        self.element_count[element] = self.element_count.get(self.name, 0) + count\n", "rules": ["R6"]},
@@ -368,6 +430,8 @@ MUTANTS += [
     {"name": "alias-single-M", "file": SPECIES, "old": 'else "M" * abs(self.charge),', "new": 'else "M",', "rules": ["R4"]},
 ]
 BENIGN = [
+    # (not output-identical for repeated surface/grain symbols, but composition-preserving: the property holds, the check must be silent)
+    {"name": "matches-collected-in-adding-dict", "file": SPECIES, "old": '        for s, e, n in zip(starts, ends, matchnames):\n            # if there is replacement, save the element name with the new value\n            n = self._replacement.get(n, n)\n            if e != s:\n                substring = parsename[e:s]\n                if substring.isdigit():\n                    self._add_element_count(n, int(parsename[e:s]))\n                else:\n                    raise RuntimeError(\n                        f\'Unrecongnized name: "{substring}" in "{self.name}"\'\n                    )\n            else:\n                if n in symbols:\n                    self._add_element_count(n, 0)\n                elif n:\n                    self._add_element_count(n, 1)\n', "new": '        # Go through the name once: check everything between two matches is a\n        # number before anything is saved in the instance, and build the name\n        # with the replaced element names at the same time\n        newname = ""\n        components = {}\n        for s, e, n in zip(starts, ends, matchnames):\n            # if there is replacement, save the element name with the new value\n            n = self._replacement.get(n, n)\n            substring = parsename[e:s]\n            if substring and not substring.isdigit():\n                raise RuntimeError(\n                    f\'Unrecongnized name: "{substring}" in "{self.name}"\'\n                )\n            newname = f"{newname}{n}{substring}"\n            if n:\n                components[n] = components.get(n, 0) + (int(substring) if substring else int(n not in symbols))\n\n        for n, count in components.items():\n            self._add_element_count(n, count)\n'},
     {"name": "eq-guard-clauses", "file": SPECIES, "old": '        if isinstance(o, Species):\n            return (\n                (self.is_electron and o.is_electron)\n                or (\n                    self.is_grain\n                    and o.is_grain\n                    and self.grain_group == o.grain_group\n                    and self.charge == o.charge\n                )\n                or (\n                    self.is_surface\n                    and o.is_surface\n                    and self.surface_group == o.surface_group\n                    and self.charge == o.charge\n                    and self.basename == o.basename\n                )\n                or self.name == o.name\n            )\n            # return (self.is_electron and o.is_electron) or self.name == o.name\n        return NotImplemented\n', "new": '        if not isinstance(o, Species):\n            return NotImplemented\n        if self.is_electron and o.is_electron:\n            return True\n        if self.is_grain and o.is_grain:\n            if self.grain_group == o.grain_group and self.charge == o.charge:\n                return True\n        if self.is_surface and o.is_surface:\n            same_group = self.surface_group == o.surface_group\n            if same_group and self.charge == o.charge and self.basename == o.basename:\n                return True\n        return self.name == o.name\n'},
     {"name": "hash-guard-clause", "file": SPECIES, "old": '        return (\n            hash("Electron")\n            if self.is_electron\n            else hash(\n                f"{self.basename}"\n                f"{self.charge}"\n                f"{self.is_grain}"\n                f"{self.grain_group}"\n                f"{self.is_surface}"\n                f"{self.surface_group}"\n            )\n        )\n\n', "new": '        if self.is_electron:\n            return hash("Electron")\n        identity = (self.basename, self.charge, self.is_grain, self.grain_group, self.is_surface, self.surface_group)\n        return hash("".join(str(part) for part in identity))\n\n'},
     {"name": "element-count-get-plus", "file": SPECIES, "old": "        if element in self.element_count.keys():\n            self.element_count[element] += count\n        else:\n            self.element_count[element] = count\n", "new": "        self.element_count[element] = self.element_count.get(element, 0) + count\n"},
